@@ -469,7 +469,50 @@ type attr struct {
 // is found by its URL token; the URL is then cut out of the message and the
 // verifier found by its distinguishing string among the verifiers whose
 // expectation the request does not meet.
-func (a *attributor) attribute(msg string) (attr, string) {
+// attributed is one entry of a query with its attribution (Problem != "" if
+// none was possible).
+type attributed struct {
+	Msg     string
+	At      attr
+	Problem string
+}
+
+const deferred = "deferred"
+
+// attributeAll attributes the entries of one query. Entries that name a
+// verifier are attributed first; entries that name none (a url verifier's
+// scheme-only mismatch, a querystring verifier's "could not parse the query")
+// are then given to the verifiers of the fitting kind that the request fails and
+// that have no entry for that request yet.
+func (a *attributor) attributeAll(msgs []string) []attributed {
+	out := make([]attributed, len(msgs))
+	taken := map[attrKey]bool{}
+	mark := func(at attr) {
+		if at.Req != nil {
+			taken[attrKey{VIdx: at.VIdx, Side: at.Side, Req: at.Req.ID}] = true
+		}
+	}
+	for i, m := range msgs {
+		at, problem := a.attribute(m, taken, true)
+		out[i] = attributed{Msg: m, At: at, Problem: problem}
+		if problem == "" {
+			mark(at)
+		}
+	}
+	for i := range out {
+		if out[i].Problem != deferred {
+			continue
+		}
+		at, problem := a.attribute(out[i].Msg, taken, false)
+		out[i].At, out[i].Problem = at, problem
+		if problem == "" {
+			mark(at)
+		}
+	}
+	return out
+}
+
+func (a *attributor) attribute(msg string, taken map[attrKey]bool, deferUntokened bool) (attr, string) {
 	tok := tokRe.FindString(msg)
 	if tok == "" {
 		// pingback: "request(<expected url>): pingback never occurred"
@@ -527,12 +570,42 @@ func (a *attributor) attribute(msg string) (attr, string) {
 		cands = append(cands, i)
 	}
 	if len(cands) == 0 && len(all) == 0 {
-		// a scheme-only mismatch of a url verifier names no token outside the URL;
-		// at most one url verifier per tree expects a scheme
-		for i, v := range a.vs {
-			if v.Kind == cfgx.KVURL && v.Attr("scheme") != "" && side == cfgx.Req && !tokenPartDiffers(v, st) && cfgx.Unmet(v, cfgx.Req, st) {
-				cands = append(cands, i)
+		if deferUntokened {
+			return attr{Req: ri}, deferred
+		}
+		// the entry names no verifier outside the URL. That is a url verifier's scheme-only
+		// mismatch (at most one url verifier per tree expects a scheme), or a querystring
+		// verifier that could not parse the query string. Give it to a fitting verifier the
+		// request fails, preferably one without an entry for this request yet.
+		var fit, other []int
+		evaluated := map[int]bool{} // verifiers the exchange reaches according to the reference walk
+		for _, e := range walk(a, ri.Msg) {
+			if e.Side == cfgx.Req {
+				evaluated[e.VIdx] = true
 			}
+		}
+		for i, v := range a.vs {
+			switch {
+			case side != cfgx.Req:
+			case v.Kind == cfgx.KVURL && v.Attr("scheme") != "" && !tokenPartDiffers(v, st) && cfgx.Unmet(v, cfgx.Req, st):
+				fit = append(fit, i)
+			case v.Kind == cfgx.KVQS && cfgx.Malformed(ri.Msg.Query) && evaluated[i]:
+				fit = append(fit, i)
+			case v.Kind == cfgx.KVQS && cfgx.Malformed(ri.Msg.Query):
+				other = append(other, i)
+			}
+		}
+		if len(fit) == 0 {
+			fit = other // not expected from any of them: it will be judged spurious
+		}
+		for _, i := range fit {
+			if !taken[attrKey{VIdx: i, Side: cfgx.Req, Req: ri.ID}] {
+				cands = []int{i}
+				break
+			}
+		}
+		if len(cands) == 0 && len(fit) > 0 {
+			cands = fit[:1] // all have one already: this one is surplus (it will be judged duplicated)
 		}
 	}
 	if len(cands) == 0 && (ri.Msg.API || len(all) == 1) {
@@ -788,8 +861,8 @@ func (m *seqModel) compareQuery(msgs []string) []finding {
 	var out []finding
 	got := map[attrKey]int{}
 	gotMsg := map[attrKey]string{}
-	for _, s := range msgs {
-		at, problem := m.a.attribute(s)
+	for _, e := range m.a.attributeAll(msgs) {
+		s, at, problem := e.Msg, e.At, e.Problem
 		if problem != "" {
 			sig := "C13:unattributed-error"
 			if at.Req != nil && at.Req.Msg.API {
@@ -1458,8 +1531,8 @@ func runConc(r *vh.Run, c concCase, race bool) bool {
 			}
 			sets := map[[2]int][]int{}
 			never := map[int]bool{}
-			for _, msg := range rec.errors {
-				at, problem := a.attribute(msg)
+			for _, e := range a.attributeAll(rec.errors) {
+				msg, at, problem := e.Msg, e.At, e.Problem
 				if problem != "" {
 					sig := "C13:unattributed-error"
 					if at.Req != nil && at.Req.Msg.API {
@@ -1750,9 +1823,9 @@ func runStress(r *vh.Run, c stressCase) bool {
 			continue
 		}
 		got := map[attrKey]int{}
-		for _, m := range msgs {
+		for _, e := range a.attributeAll(msgs) {
 			entries++
-			at, problem := a.attribute(m)
+			m, at, problem := e.Msg, e.At, e.Problem
 			if problem != "" {
 				sig := "C13:unattributed-error"
 				if at.Req != nil && at.Req.Msg.API {
